@@ -242,6 +242,25 @@ CLAIMED['C06'] = dict(
     technique="Lean 4 theorems over all call outcomes (call-level model) and over trees with unreadable objects + source bridge + fault-injection differential against the real code",
     ref='§7 C06')
 
+CLAIMED['C14'] = dict(
+    text=(UPD + "The save model's writes carry a flag 'handed to gpg --clearsign'; the loader state carries the sign option, whether "
+          "the top-level Manifest was loaded with a verified signature, and whether gpg can sign with the selected key. Theorems: a "
+          "Manifest is signed iff it is the top-level Manifest and signing is requested, or not disabled and the original was signed "
+          "(C14_sign_decision with C14_force_sign, C14_no_sign, C14_keep); sub-Manifests are never signed "
+          "(C14_sub_manifest_never_signed); every text the write step writes carries exactly that decision, also under a new name after "
+          "a watermark rename (C14_write_step_flags); an unusable key makes the step raise OpenPGPSigningFailure instead of writing "
+          "(C14_signing_failure_raises, C14_usable_key_writes); when the decision is 'plain', every write of a whole save_manifests is "
+          "plain (C14_plain_when_not_signing, by induction over the save order). Tie: Bridge/Sign pins dump, save_manifest, "
+          "clear_sign_file, the statement order of the rename block and the CLI options; the harness runs the real update+save with "
+          "real gpg over sign option x original state x key id x secret key present/absent x layouts x watermarks and compares every "
+          "written Manifest (for signed ones: the cleartext gpg itself authenticates), flags, renames and error class with the model. "
+          "PARTIAL: that gpg's output is a cleartext-signed message over exactly the text it was given, which verifies with the "
+          "signing key, is observed (real gpg verification and a verifying reload on every signed write), not proved; the global "
+          "'signed stays signed over a whole save' is proved per step, composed by the correspondence."),
+    note=TB + "Whether the original signature verifies (openpgp_signed) is an input taken from the real loader; gpg is trusted.",
+    technique="Lean 4 theorems on the sign decision, the write step and a whole save + source bridge + real-gpg differential runs",
+    ref='§7 C14')
+
 PENDING = ['C01', 'C02', 'C03', 'C04', 'C05', 'C06', 'C07', 'C08', 'C10', 'C11', 'C12', 'C13', 'C14', 'C15', 'C16',
            'C17', 'C18', 'C19', 'C20']
 
